@@ -181,16 +181,17 @@ theorem C22_pool_plock_access_exclusive (cap : Nat) (s : PoolMonitor.St)
   have hi := PoolMonitor.pinv_reachable cap s h
   exact ⟨fun n t1 t2 => PoolMonitor.plock_access_exclusive hi n t1 t2, fun t n hpc => PoolMonitor.unRel_enabled hi hpc⟩
 
-/-! ### Examples (evaluated by `decide`) -/
+/-! ### Examples (evaluated by `decide`; events are compared as the structures `⟨kind, loc, a, b⟩` the trace lines are
+     printed from) -/
 
-/-- Thread 0 locks lock 0 twice (second time through the owner check and `fetch_add`); thread 1's `try_lock` fails. -/
+/-- Thread 0 locks lock 0 twice (the second time through the owner check and `fetch_add`); thread 1's `try_lock` fails. -/
 def schedNested : List (Tid × Act) :=
   [(0, .invoke ⟨"lock", [0, 0]⟩), (0, .step), (0, .step), (0, .step), (0, .ret),
    (0, .invoke ⟨"lock", [0, 0]⟩), (0, .step), (0, .step), (0, .ret),
    (1, .invoke ⟨"try_lock", [1, 0]⟩), (1, .step), (1, .step), (1, .ret)]
 
-/-- … then thread 0 unlocks twice (first `m_spin := 1`, then `m_OwnerId := null; m_spin := 0`) and thread 1's `try_lock`
-    succeeds. -/
+/-- … then thread 0 unlocks once (`m_spin := 1`), thread 1's `try_lock` fails again, thread 0 unlocks for the last time
+    (`m_OwnerId := null; m_spin := 0`) and thread 1's `try_lock` succeeds. -/
 def schedNested2 : List (Tid × Act) := schedNested ++
   [(0, .invoke ⟨"unlock", [0, 0]⟩), (0, .step), (0, .step), (0, .ret),
    (1, .invoke ⟨"try_lock", [1, 0]⟩), (1, .step), (1, .step), (1, .ret),
@@ -198,35 +199,42 @@ def schedNested2 : List (Tid × Act) := schedNested ++
    (1, .invoke ⟨"try_lock", [1, 0]⟩), (1, .step), (1, .step), (1, .step), (1, .ret)]
 
 example : (ReentrantSpin.model.run ReentrantSpin.init schedNested).map
-    (fun p => (p.1.spin 0, p.1.owner 0, p.1.depth 0 0, p.1.depth 1 0, ReentrantSpin.render p.2)) =
-    some (2, some 0, 2, 0,
-      ["T 0 CALL lock [0, 0]", "T 0 A ld L0.owner 0", "T 0 A cas+ L0.spin 0 1", "T 0 A st L0.owner T0", "T 0 RET []",
-       "T 0 CALL lock [0, 0]", "T 0 A ld L0.owner T0", "T 0 A add L0.spin 1 1", "T 0 RET []",
-       "T 1 CALL try_lock [1, 0]", "T 1 A ld L0.owner T0", "T 1 A cas- L0.spin 2 0", "T 1 RET [0]"]) := by
-  decide +kernel
+    (fun p => (p.1.spin 0, p.1.owner 0, p.1.depth 0 0, p.1.depth 1 0, p.1.pc 1)) =
+    some (2, some 0, 2, 0, .idle) := by decide +kernel
+
+example : (ReentrantSpin.model.run ReentrantSpin.init schedNested).map (fun p => ReentrantSpin.events p.2) =
+    some [(0, ⟨"ld", "L0.owner", "0", ""⟩), (0, ⟨"cas+", "L0.spin", "0", "1"⟩), (0, ⟨"st", "L0.owner", "T0", ""⟩),
+          (0, ⟨"ld", "L0.owner", "T0", ""⟩), (0, ⟨"add", "L0.spin", "1", "1"⟩),
+          (1, ⟨"ld", "L0.owner", "T0", ""⟩), (1, ⟨"cas-", "L0.spin", "2", "0"⟩)] := by decide +kernel
+
+/-- The failed `try_lock` returned 0. -/
+example : (ReentrantSpin.model.run ReentrantSpin.init schedNested).map (fun p => p.2.getLast?) =
+    some (some (1, .ret [0])) := by decide +kernel
 
 example : (ReentrantSpin.model.run ReentrantSpin.init schedNested2).map
-    (fun p => (p.1.spin 0, p.1.owner 0, p.1.depth 0 0, p.1.depth 1 0, (ReentrantSpin.render p.2).drop 13)) =
-    some (1, some 1, 0, 1,
-      ["T 0 CALL unlock [0, 0]", "T 0 A ld L0.spin 2", "T 0 A st L0.spin 1", "T 0 RET []",
-       "T 1 CALL try_lock [1, 0]", "T 1 A ld L0.owner T0", "T 1 A cas- L0.spin 1 0", "T 1 RET [0]",
-       "T 0 CALL unlock [0, 0]", "T 0 A ld L0.spin 1", "T 0 A st L0.owner 0", "T 0 A st L0.spin 0", "T 0 RET []",
-       "T 1 CALL try_lock [1, 0]", "T 1 A ld L0.owner 0", "T 1 A cas+ L0.spin 0 1", "T 1 A st L0.owner T1",
-       "T 1 RET [1]"]) := by
+    (fun p => (p.1.spin 0, p.1.owner 0, p.1.depth 0 0, p.1.depth 1 0)) = some (1, some 1, 0, 1) := by decide +kernel
+example : (ReentrantSpin.model.run ReentrantSpin.init schedNested2).map (fun p => p.2.getLast?) =
+    some (some (1, .ret [1])) := by decide +kernel
+
+example : (ReentrantSpin.model.run ReentrantSpin.init schedNested2).map (fun p => (ReentrantSpin.events p.2).drop 7) =
+    some [(0, ⟨"ld", "L0.spin", "2", ""⟩), (0, ⟨"st", "L0.spin", "1", ""⟩),
+          (1, ⟨"ld", "L0.owner", "T0", ""⟩), (1, ⟨"cas-", "L0.spin", "1", "0"⟩),
+          (0, ⟨"ld", "L0.spin", "1", ""⟩), (0, ⟨"st", "L0.owner", "0", ""⟩), (0, ⟨"st", "L0.spin", "0", ""⟩),
+          (1, ⟨"ld", "L0.owner", "0", ""⟩), (1, ⟨"cas+", "L0.spin", "0", "1"⟩), (1, ⟨"st", "L0.owner", "T1", ""⟩)] := by
   decide +kernel
 
 /-- The discipline is enforced: `unlock` by a thread that does not hold the lock is not a run. -/
-example : ReentrantSpin.model.run ReentrantSpin.init (schedNested ++ [(1, .invoke ⟨"unlock", [1, 0]⟩)]) = none := by
+example : (ReentrantSpin.model.run ReentrantSpin.init (schedNested ++ [(1, .invoke ⟨"unlock", [1, 0]⟩)])).isNone = true := by
   decide +kernel
 
 /-- Two threads contend for node 0 (pool of capacity 1): thread 0's CAS adds the first reference, thread 1's CAS fails
-    against the spin bit and is retried after `cur &= ~1`; thread 0 attaches pool lock 0 lazily; thread 1 finds it attached,
-    spins on it until thread 0 unlocks; thread 0 is not the last user, so the lock stays attached. -/
+    against the spin bit and is retried after `cur &= ~1`; thread 0 attaches pool lock 0 lazily; thread 1 finds it attached
+    and spins on it until thread 0 unlocks; thread 0 is not the last user, so the lock stays attached. -/
 def schedContend : List (Tid × Act) :=
   [(0, .invoke ⟨"lock", [0, 0]⟩), (1, .invoke ⟨"lock", [1, 0]⟩),
    (0, .step), (1, .step),            -- both load m_RefSpin = 0
    (0, .step),                        -- T0: cas+ 0 -> 3
-   (1, .step),                        -- T1: cas- sees 3
+   (1, .step),                        -- T1: cas- sees 3, cur := 2
    (0, .step),                        -- T0: attach lock 0, store 2
    (1, .step),                        -- T1: cas+ 2 -> 5
    (0, .step),                        -- T0: xchg P0 0 -> 1, inside
@@ -236,48 +244,62 @@ def schedContend : List (Tid × Act) :=
    (0, .invoke ⟨"unlock", [0, 0]⟩), (0, .step), (0, .step), (0, .step), (0, .step), (0, .ret),
    (1, .step), (1, .step), (1, .ret)]
 
-example : (PoolMonitor.model.run (PoolMonitor.init 1) schedContend).map
-    (fun p => (p.1.refspin 0, p.1.plock 0, p.1.pool, p.1.cs 0 0, p.1.cs 1 0, p.1.users 0, PoolMonitor.render p.2)) =
-    some (2, some 0, [], false, true, [1],
-      ["T 0 CALL lock [0, 0]", "T 1 CALL lock [1, 0]",
-       "T 0 A ld N0.refspin 0", "T 1 A ld N0.refspin 0",
-       "T 0 A cas+ N0.refspin 0 3",
-       "T 1 A cas- N0.refspin 3 0",
-       "T 0 A st N0.refspin 2",
-       "T 1 A cas+ N0.refspin 2 5",
-       "T 0 A xchg P0.spin 0 1",
-       "T 1 A st N0.refspin 4",
-       "T 1 A xchg P0.spin 1 1", "T 1 A ld P0.spin 1",
-       "T 0 RET []",
-       "T 0 CALL unlock [0, 0]", "T 0 A st P0.spin 0", "T 0 A ld N0.refspin 4", "T 0 A cas+ N0.refspin 4 5",
-       "T 0 A st N0.refspin 2", "T 0 RET []",
-       "T 1 A ld P0.spin 0", "T 1 A xchg P0.spin 0 1", "T 1 RET []"]) := by
-  decide +kernel
+/-- While thread 0 is inside and thread 1 waits: two references, lock 0 attached and held by thread 0. -/
+example : (PoolMonitor.model.run (PoolMonitor.init 1) (schedContend.take 13)).map
+    (fun p => (p.1.refspin 0, p.1.plock 0, p.1.pool, p.1.users 0)) = some (4, some 0, [], [1, 0]) := by decide +kernel
+example : (PoolMonitor.model.run (PoolMonitor.init 1) (schedContend.take 13)).map
+    (fun p => (p.1.cs 0 0, p.1.cs 1 0, p.1.lowner 0, p.1.pc 1)) = some (true, false, some 0, .lkWait 0 0) := by decide +kernel
 
-/-- A lock id is reused: thread 0 locks and unlocks node 0 (lock 0 attached, detached as last user, returned to the pool
-    when `unlock` returns), then locks node 1, which gets the same pool lock 0. -/
+/-- At the end thread 1 is inside; thread 0 has left and dropped its reference; the lock is still attached. -/
+example : (PoolMonitor.model.run (PoolMonitor.init 1) schedContend).map
+    (fun p => (p.1.refspin 0, p.1.plock 0, p.1.pool, p.1.users 0)) = some (2, some 0, [], [1]) := by decide +kernel
+example : (PoolMonitor.model.run (PoolMonitor.init 1) schedContend).map
+    (fun p => (p.1.cs 0 0, p.1.cs 1 0, p.1.lowner 0)) = some (false, true, some 1) := by decide +kernel
+
+example : (PoolMonitor.model.run (PoolMonitor.init 1) schedContend).map (fun p => PoolMonitor.events p.2) =
+    some [(0, ⟨"ld", "N0.refspin", "0", ""⟩), (1, ⟨"ld", "N0.refspin", "0", ""⟩),
+          (0, ⟨"cas+", "N0.refspin", "0", "3"⟩),
+          (1, ⟨"cas-", "N0.refspin", "3", "0"⟩),
+          (0, ⟨"st", "N0.refspin", "2", ""⟩),
+          (1, ⟨"cas+", "N0.refspin", "2", "5"⟩),
+          (0, ⟨"xchg", "P0.spin", "0", "1"⟩),
+          (1, ⟨"st", "N0.refspin", "4", ""⟩),
+          (1, ⟨"xchg", "P0.spin", "1", "1"⟩), (1, ⟨"ld", "P0.spin", "1", ""⟩),
+          (0, ⟨"st", "P0.spin", "0", ""⟩), (0, ⟨"ld", "N0.refspin", "4", ""⟩), (0, ⟨"cas+", "N0.refspin", "4", "5"⟩),
+          (0, ⟨"st", "N0.refspin", "2", ""⟩),
+          (1, ⟨"ld", "P0.spin", "0", ""⟩), (1, ⟨"xchg", "P0.spin", "0", "1"⟩)] := by decide +kernel
+
+/-- A lock id is reused: thread 0 locks and unlocks node 0 (lock 0 attached, detached by the last user, returned to the
+    pool when `unlock` returns), then locks node 1, which gets the same pool lock 0. -/
 def schedReuse : List (Tid × Act) :=
   [(0, .invoke ⟨"lock", [0, 0]⟩), (0, .step), (0, .step), (0, .step), (0, .step), (0, .ret),
    (0, .invoke ⟨"unlock", [0, 0]⟩), (0, .step), (0, .step), (0, .step), (0, .step), (0, .ret),
    (0, .invoke ⟨"lock", [0, 1]⟩), (0, .step), (0, .step), (0, .step), (0, .step), (0, .ret)]
 
 example : (PoolMonitor.model.run (PoolMonitor.init 1) schedReuse).map
-    (fun p => (p.1.plock 0, p.1.plock 1, p.1.refspin 0, p.1.refspin 1, p.1.pool, p.1.cs 0 1, (PoolMonitor.render p.2).drop 6)) =
-    some (none, some 0, 0, 2, [], true,
-      ["T 0 CALL unlock [0, 0]", "T 0 A st P0.spin 0", "T 0 A ld N0.refspin 2", "T 0 A cas+ N0.refspin 2 3",
-       "T 0 A st N0.refspin 0", "T 0 RET []",
-       "T 0 CALL lock [0, 1]", "T 0 A ld N1.refspin 0", "T 0 A cas+ N1.refspin 0 3", "T 0 A st N1.refspin 2",
-       "T 0 A xchg P0.spin 0 1", "T 0 RET []"]) := by
-  decide +kernel
+    (fun p => (p.1.plock 0, p.1.plock 1, p.1.refspin 0, p.1.refspin 1)) = some (none, some 0, 0, 2) := by decide +kernel
+example : (PoolMonitor.model.run (PoolMonitor.init 1) schedReuse).map
+    (fun p => (p.1.pool, p.1.cs 0 0, p.1.cs 0 1, p.1.lowner 0)) = some ([], false, true, some 0) := by decide +kernel
 
-/-- Between the detaching store and the return of `unlock` the lock is in nobody's hands: not attached, not in the pool. -/
+example : (PoolMonitor.model.run (PoolMonitor.init 1) schedReuse).map (fun p => (PoolMonitor.events p.2).drop 4) =
+    some [(0, ⟨"st", "P0.spin", "0", ""⟩), (0, ⟨"ld", "N0.refspin", "2", ""⟩), (0, ⟨"cas+", "N0.refspin", "2", "3"⟩),
+          (0, ⟨"st", "N0.refspin", "0", ""⟩),
+          (0, ⟨"ld", "N1.refspin", "0", ""⟩), (0, ⟨"cas+", "N1.refspin", "0", "3"⟩), (0, ⟨"st", "N1.refspin", "2", ""⟩),
+          (0, ⟨"xchg", "P0.spin", "0", "1"⟩)] := by decide +kernel
+
+/-- Between the detaching store and the return of `unlock` the lock is in nobody's hands (not attached, not in the pool);
+    the return puts it back. -/
 example : (PoolMonitor.model.run (PoolMonitor.init 1) (schedReuse.take 11)).map
-    (fun p => (p.1.plock 0, p.1.pool, p.1.pc 0)) = some (none, [], .fin (some 0)) := by
-  decide +kernel
+    (fun p => (p.1.plock 0, p.1.pool, p.1.pc 0)) = some (none, [], .fin (some 0)) := by decide +kernel
+example : (PoolMonitor.model.run (PoolMonitor.init 1) (schedReuse.take 12)).map
+    (fun p => (p.1.plock 0, p.1.pool, p.1.pc 0)) = some (none, [0], .idle) := by decide +kernel
 
-/-- With an empty pool the lock comes from the heap (fresh id). -/
+/-- With an empty pool the lock comes from the heap (a fresh id). -/
 example : (PoolMonitor.model.run (PoolMonitor.init 0) (schedReuse.take 6)).map
-    (fun p => (p.1.plock 0, p.1.pool, p.1.fresh)) = some (some 0, [], 1) := by
+    (fun p => (p.1.plock 0, p.1.pool, p.1.fresh)) = some (some 0, [], 1) := by decide +kernel
+
+/-- The discipline is enforced: a second `lock` of the same node by the thread inside it is not a run. -/
+example : (PoolMonitor.model.run (PoolMonitor.init 1) (schedReuse.take 6 ++ [(0, .invoke ⟨"lock", [0, 0]⟩)])).isNone = true := by
   decide +kernel
 
 end CdsVerif.Props.C22Monitors
